@@ -84,7 +84,7 @@ def restricted(nodes, imps, sub):
     return keep, {(a, b) for a, b in imps if a in below and b in below and not is_ancestor(b, a)}
 
 
-def one_tree(tspec, relative_style, acc, rnd, only_mp=None):
+def one_tree(tspec, relative_style, acc, rnd, only_mp=None, force_excl=None):
     from pytestarch import get_evaluable_architecture, get_evaluable_architecture_for_module_objects
 
     hint = tspec.pop("_mp_hint", None)
@@ -183,9 +183,16 @@ def one_tree(tspec, relative_style, acc, rnd, only_mp=None):
         dirs_nonroot = [d for d in dirs if d]
         if dirs_nonroot and (rnd.random() < 0.4 or only_mp is not None):
             d = rnd.choice(dirs_nonroot)
-            c4 = dict(case, excluded_dir=d)
+            # several excluded directories below one parent (neighbours in the parent's listing)
+            sibs = [x for x in dirs_nonroot if os.path.dirname(x) == os.path.dirname(d) and x != d]
+            chosen = [d] + rnd.sample(sibs, min(len(sibs), rnd.randint(0, 3)))
+            if force_excl:
+                chosen = list(force_excl)
+            if len(chosen) > 1:
+                acc.count("sibling_directory_exclusion_scans")
+            c4 = dict(case, excluded_dir=d, excluded_dirs=chosen)
             HUB.case = c4
-            get_evaluable_architecture(root, root, exclusions=("*/" + os.path.basename(d),))
+            get_evaluable_architecture(root, root, exclusions=tuple("*/" + os.path.basename(x) for x in chosen))
             sx = HUB.scan_events[-1]
             acc.evaluated()
             acc.count("directory_exclusion_scans")
@@ -199,14 +206,14 @@ def replay(case, acc):
     spec = case["spec"]
     if case.get("hint"):
         spec["_mp_hint"] = case["hint"]
-    one_tree(spec, case["relative_style"], acc, random.Random(0), only_mp=case.get("mp"))
+    one_tree(spec, case["relative_style"], acc, random.Random(0), only_mp=case.get("mp"), force_excl=case.get("excluded_dirs"))
 
 
 def floors(acc, tier):
     why = []
     if acc.counters["scans_judged"] < 200:
         why.append(f"only {acc.counters['scans_judged']} scans judged")
-    for c, n in (("subscan_equivalences", 100), ("entry_point_equivalences", 100), ("prefix_sibling_trees", 10), ("via_prefix_statements", 10), ("include_mode_scans", 30)):
+    for c, n in (("subscan_equivalences", 100), ("entry_point_equivalences", 100), ("prefix_sibling_trees", 10), ("via_prefix_statements", 10), ("include_mode_scans", 30), ("sibling_directory_exclusion_scans", 10)):
         if acc.counters[c] < n:
             why.append(f"{c}: only {acc.counters[c]}")
     if acc.counters["scan_model_errors"]:
